@@ -75,7 +75,7 @@ PROPS.update({
     'C10': _ev(['protocol'], 'Proof that dequeue_operation returns the head of the first non-empty queue in priority order and a blocked head is not overtaken; user operations are appended '
                'with strictly increasing ids. Sorting/re-queueing at close and CONNACK is bounded (E-B).', design_ref='DESIGN.md 3/C10'),
     'C11': _ev(['protocol', 'client', 'codec', 'alias', 'ws'], 'Every panic!/unwrap/assert/index/overflow inside the 70+ extracted engine functions is a discharged obligation under wf; every entry point returns Err => Halted, '
-               'Halted rejects service and traffic. One obligation is an open known finding (F-TIMEOUT-CURRENT).', design_ref='DESIGN.md 3/C11'),
+               'Halted rejects service and traffic.', design_ref='DESIGN.md 3/C11'),
     'C12': _ev(['client', 'protocol'], 'Complete proof of the lifecycle decision table compute_optional_state_transition (all current x desired x stop-option cases); event grammar of '
                'transition_to_state is bounded (E-B); thread/task interleavings are outside contract-based verification.', design_ref='DESIGN.md 3/C12'),
     'C14': _ev(['protocol'], 'Proof of service_keep_alive (deadline = now + min(ping timeout, K*500ms), next ping = now + K s, one PINGREQ at the front), handle_connack (first ping), '
@@ -138,7 +138,6 @@ PROPS['C09']['eb'] = [_eb_engine()]
 PROPS['C10']['eb'] = [_eb_engine(), EB_SORT]
 PROPS['C12']['eb'] = [EB_CLIENT]
 PROPS['C19']['eb'] = [dict(EB_CLIENT, name='client-backoff', filters=['client::client_new', 'client::client_backoff'], tests=['client_new_initial_period_normalized', 'client_backoff_resets_only_after_stable_connection'])]
-PROPS['C11']['eb'].append(_findings_group(['f_timeout_current_panics']))
 PROPS['C02']['eb'] = [_findings_group(['f_subid_wire_width'])]
 PROPS['C16']['eb'] = [_findings_group(['f_subid_avail_not_enforced'])]
 
